@@ -108,6 +108,10 @@ fn num_digits_u128(mut x: u128) -> u32 {
 
 /// Get current Unix timestamp in seconds
 pub fn now() -> u64 {
+    #[cfg(sneldb_verif)]
+    if let Some(s) = crate::verif_hooks::now_secs() {
+        return s;
+    }
     SystemTime::now()
         .duration_since(UNIX_EPOCH)
         .unwrap_or_default()
